@@ -15,9 +15,7 @@
 (* reason and the result the specification expects, and printed as JSON    *)
 (* when the last record has been consumed.                                 *)
 (***************************************************************************)
-EXTENDS SeqFilters, Json, IOUtils
-
-Recs == JsonDeserialize(IOEnv.TRACE_FILE)
+EXTENDS SeqFilters, FTrace
 
 VARIABLES tid, rej
 
@@ -45,10 +43,6 @@ Expected(r) ==
          [] r.f = "selectattr" -> L(SelectBy(s, a.attr, r.name, a.arg, TRUE))
          [] r.f = "rejectattr" -> L(SelectBy(s, a.attr, r.name, a.arg, FALSE))
 
-ArgsIntact(r) ==
-    /\ VEq(r.inp2, r.inp)
-    /\ \A k \in DOMAIN r.args : VEq(r.args2[k], r.args[k])
-
 C22_ResultOK(r) == VEq(r.out, Expected(r))
 C22_ArgsUnmodified(r) == ArgsIntact(r)
 Contract(r) == C22_ResultOK(r) /\ C22_ArgsUnmodified(r)
@@ -64,15 +58,15 @@ Why(r) ==
 Init == tid = 0 /\ rej = <<>>
 
 Step ==
-    /\ tid < Len(Recs)
+    /\ tid < NRecs
     /\ tid' = tid + 1
-    /\ LET r == Recs[tid + 1]
+    /\ LET r == RecAt(tid + 1)
        IN rej' = IF Contract(r) THEN rej
                  ELSE Append(rej, [id |-> tid + 1, why |-> Why(r), expected |-> Expected(r)])
-    /\ (tid + 1 = Len(Recs)) => PrintT(ToJson([rejected |-> rej']))
+    /\ (tid + 1 = NRecs) => PrintT(ToJson([rejected |-> rej']))
 
 Spec == Init /\ [][Step]_<<tid, rej>>
 
 \* every record of the batch is consumed
-AllConsumed == <>(tid = Len(Recs))
+AllConsumed == <>(tid = NRecs)
 =============================================================================
